@@ -133,10 +133,24 @@ def canon_value(v, depth=0, skip=()):
 def canon_region(r):
     # the public face (offset, length, min_length, data) plus every other instance attribute
     # (an end-of-stream flag, a private buffer ...), whatever it is called
+    data = bytes(r.data)      # first: a lazily assembled buffer is brought into its settled form
     extra = tuple(sorted((k, canon_value(v, 1))
                          for k, v in attrs_of(r).items()
                          if k not in ('offset', 'length', 'min_length', 'data') and not callable(v)))
-    return (type(r).__name__, r.offset, r.length, r.min_length, bytes(r.data), extra)
+    return (type(r).__name__, r.offset, r.length, r.min_length, data, extra)
+
+
+def observable_inspector(i):
+    """What can be observed of an inspector from outside (used where two runs are *compared*
+    - the canonical form above is only for merging states and may be finer than this):
+    the verdict, the retained sizes and the bytes of every region."""
+    regs = tuple((n, r.offset, r.length, bytes(r.data), bool(r.complete))
+                 for n, r in sorted(regions_of(i).items()))
+    try:
+        ctx = tuple(sorted(i.context_info.items()))
+    except Exception as e:
+        ctx = ('raises', type(e).__name__)
+    return (type(i).__name__, verdict_inspector(i), ctx, regs)
 
 
 def canon_inspector(i):
